@@ -47,6 +47,9 @@ type callT struct {
 type kindT struct {
 	Uo    bool `json:"uo"`
 	Lossy bool `json:"lossy"` // without backpressure
+	// Masked: the subscription has a read mask that keeps the tracked field (default_int32) and drops the
+	// rest of the message (default_string, which every written message carries)
+	Masked bool `json:"masked"`
 }
 type stepT struct {
 	A string `json:"a"`
@@ -79,6 +82,21 @@ type recvT struct {
 	ID   int  `json:"id"`
 	V    int  `json:"v"`
 	Seed bool `json:"seed"`
+	Rest int  `json:"rest"`
+	// the message as the subscriber holds it: looked at again when the run is over (a subscriber may look at
+	// what it was handed at any later time, see lookAgain)
+	src proto.Message
+}
+
+// lookAgain re-reads every message the subscribers were handed, now that the run is over.
+func (lg *runLog) lookAgain() {
+	for i := range lg.Recv {
+		for k := range lg.Recv[i] {
+			if e := &lg.Recv[i][k]; e.src != nil {
+				e.V, e.Rest = val(e.src), rest(e.src)
+			}
+		}
+	}
 }
 type runLog struct {
 	N         int       `json:"n"`
@@ -101,7 +119,27 @@ type runLog struct {
 
 var ids = []string{"", "aaaaaaaa", "bbbbbbbb"}
 
-func msg(v int) *testproto.TestAllTypes { return &testproto.TestAllTypes{DefaultInt32: int32(v)} }
+// every message carries, next to the tracked integer, a constant untracked part
+const restText = "rest"
+
+func msg(v int) *testproto.TestAllTypes {
+	return &testproto.TestAllTypes{DefaultInt32: int32(v), DefaultString: restText}
+}
+
+// rest says what a received message has outside the tracked field: 1 the untracked part as written, 0 nothing
+// (what a masked subscriber is to be handed), 2 anything else, -1 no message (a removal).
+func rest(m proto.Message) int {
+	if m == nil || !m.ProtoReflect().IsValid() {
+		return -1
+	}
+	switch m.(*testproto.TestAllTypes).DefaultString {
+	case restText:
+		return 1
+	case "":
+		return 0
+	}
+	return 2
+}
 func val(m proto.Message) int {
 	if m == nil || !m.ProtoReflect().IsValid() {
 		return absent
@@ -293,6 +331,9 @@ type subscription struct {
 
 func (t target) pull(ctx context.Context, k kindT) subscription {
 	ro := []resource.ReadOption{resource.WithBackpressure(!k.Lossy), resource.WithUpdatesOnly(k.Uo)}
+	if k.Masked {
+		ro = append(ro, resource.WithReadPaths(&testproto.TestAllTypes{}, "default_int32"))
+	}
 	if t.val != nil {
 		return subscription{vch: t.val.Pull(ctx, ro...)}
 	}
@@ -315,14 +356,14 @@ func (s subscription) recv(d time.Duration) (recvT, bool) {
 		if !ok {
 			return recvT{}, false
 		}
-		return recvT{ID: 1, V: val(e.Value), Seed: e.SeedValue}, true
+		return recvT{ID: 1, V: val(e.Value), Seed: e.SeedValue, Rest: rest(e.Value), src: e.Value}, true
 	case e, ok := <-s.cch:
 		if !ok {
 			return recvT{}, false
 		}
-		r := recvT{ID: idIndex(e.Id), V: val(e.NewValue), Seed: e.SeedValue}
+		r := recvT{ID: idIndex(e.Id), V: val(e.NewValue), Seed: e.SeedValue, Rest: rest(e.NewValue), src: e.NewValue}
 		if e.ChangeType == types.ChangeType_REMOVE {
-			r.V = absent
+			r.V, r.Rest, r.src = absent, -1, nil
 		}
 		return r, true
 	case <-time.After(d):
@@ -332,6 +373,9 @@ func (s subscription) recv(d time.Duration) (recvT, bool) {
 
 func build(c caseT) target {
 	if c.Res == "val" {
+		if c.Init[0] == absent {
+			return target{val: resource.NewValue()} // nothing stored until the first Set
+		}
 		return target{val: resource.NewValue(resource.WithInitialValue(msg(c.Init[0])))}
 	}
 	var ro []resource.Option
@@ -655,10 +699,13 @@ func main() {
 		hx.Current(c)
 		if c.Stress > 0 {
 			for it := 0; it < c.Stress; it++ {
-				out.Write(runStress(c, it))
+				o := runStress(c, it)
+				o.lookAgain()
+				out.Write(o)
 			}
 		} else {
 			o := runForced(c)
+			o.lookAgain()
 			if !c.Attack && (o.Drift != "" || o.Problem != "") {
 				bad++
 			}
